@@ -19,7 +19,8 @@ def _report(ctx, out, tracep):
             ctx.violation({"rule": "trace-reader", "why": what[:70], "data": e["data"], "faultAt": e["faultAt"]}, {"text": e["data"], "ro": None, "ev": e},
                           "C06Trace: %s (data %r, fault at %s, calls %s)" % (what, vlib.b2s(e["data"]), e["faultAt"], [c["op"] for c in e["calls"]]))
         else:
-            ctx.violation({"rule": "trace-run", "why": what[:70], "n": lno}, {"text": [], "ro": None},
+            ctx.violation({"rule": "trace-run", "why": what[:70], "text": e.get("text", []), "fault": e.get("fault"), "ro": e.get("ro")},
+                          {"text": e.get("text", []), "ro": e.get("ro")},
                           "C06Trace: %s (%s)" % (what, {k: v for k, v in e.items() if k != "ev"}))
     return tres, events
 
